@@ -161,6 +161,12 @@ class VList:
         return "VList(%r)" % (self.items,)
 
 
+class SymDict:
+    """dict with possibly symbolic keys: association list, lookups fork on key equality"""
+    def __init__(self):
+        self.items = []
+
+
 class SymSeq:
     """symbolic sequence: length (z3 Int or int) + element function idx(z3 Int) -> value"""
     def __init__(self, length, elem, label="seq"):
@@ -426,7 +432,7 @@ class Contract:
     def __init__(self, target, setup=None, requires=(), ensures=(), result="Real", pure=True,
                  precondition_asserts=0, returns_closure=None, loops=None, replay=None, prop=None,
                  params=None, ghosts=None, inline_callees=(), post_hook=None, modifies=None,
-                 literal_cases=(), result_term=None, props=None):
+                 literal_cases=(), result_term=None, props=None, body_select=None):
         self.target = target
         self.setup = setup
         self.requires = list(requires)
@@ -449,6 +455,9 @@ class Contract:
         # callable(engine, env) -> term naming the result as a function of the arguments (deterministic pure function)
         self.result_term = result_term
         self.props = props or ([prop] if prop else [])
+        # callable(list of top-level statements) -> sub-list to execute: verification of a *cut* of the function
+        # (from a program point with the contract's requires as mid-condition); what is skipped is stated in the evidence
+        self.body_select = body_select
 
 
 class LoopContract:
@@ -458,7 +467,10 @@ class LoopContract:
     invariant  list of clause strings
     modifies   {var name: type}   variables assigned in the body (havoced at the cut); type 'Real'|'Int'|'Bool'|callable
     """
-    def __init__(self, index="k", invariant=(), modifies=None, label=None, decreases=None):
+    def __init__(self, index="k", invariant=(), modifies=None, label=None, decreases=None, abort=False):
+        # abort: the path ends when it reaches this loop without further obligations (the contract states which other
+        # scenario covers that path)
+        self.abort = abort
         self.index = index
         self.invariant = list(invariant)
         self.modifies = modifies or {}
@@ -771,6 +783,14 @@ class Engine:
     def ev_List(self, node, env):
         return VList(self.ev_Tuple(node, env))
 
+    def ev_Dict(self, node, env):
+        out = SymDict()
+        for k, v in zip(node.keys, node.values):
+            if k is None:
+                raise OutsideSubset("dict unpacking")
+            out.items.append((self.ev(k, env), self.ev(v, env)))
+        return out
+
     def ev_UnaryOp(self, node, env):
         v = self.ev(node.operand, env)
         if isinstance(node.op, ast.Not):
@@ -990,6 +1010,8 @@ class Engine:
             return b_or(*[self.compare(ast.Eq(), item, x) for x in cont.items])
         if isinstance(cont, dict):
             return b_or(*[self.compare(ast.Eq(), item, x) for x in cont.keys()])
+        if isinstance(cont, SymDict):
+            return b_or(*[self.compare(ast.Eq(), item, k) for k, _ in cont.items])
         for hook in self.contains_hooks:
             r = hook(self, cont, item)
             if r is not NotImplemented:
@@ -1138,6 +1160,13 @@ class Engine:
                 if same is True:
                     return v
             raise OutsideSubset("dict lookup of symbolic key")
+        if isinstance(base, SymDict):
+            # the most recent binding wins; fork on symbolic key equality
+            for k, v in reversed(base.items):
+                same = self.compare(ast.Eq(), k, idx)
+                if self.branch(same, "dict-key=="):
+                    return v
+            self.oblige("dict-key-present", False)
         for hook in self.index_hooks:
             r = hook(self, base, idx)
             if r is not NotImplemented:
@@ -1471,6 +1500,8 @@ class Engine:
                 base.items[idx] = v
             elif isinstance(base, dict):
                 base[idx] = v
+            elif isinstance(base, SymDict):
+                base.items.append((idx, v))
             else:
                 raise OutsideSubset("subscript store")
         else:
@@ -1554,6 +1585,9 @@ class Engine:
     def ex_For(self, st, env):
         it = self.ev(st.iter, env)
         lc = self.loop_contract(st)
+        if lc is not None and lc.abort:
+            self.path_labels.append("loop-covered-by-other-scenario")
+            raise PathEnd()
         if lc is None:
             try:
                 items = self.iter_concrete(it)
@@ -1741,7 +1775,8 @@ class Engine:
                         else:
                             self.call_depth += 1
                             self.module_stack.append(m.name)
-                            self.exec_block(fnode.body, env)
+                            body = fnode.body if contract.body_select is None else contract.body_select(fnode.body)
+                            self.exec_block(body, env)
                             result = None
                     except ReturnEx as r:
                         result = r.value
